@@ -13,7 +13,7 @@ CONFIG = {
                    "image is judged by independent readers and by running info, verify and create again. Thorough enumerates "
                    "every effect x mode of each sampled scenario; scenarios themselves are sampled."),
     "level_note": ("Process death (SIGKILL) is modelled, not power loss; kills between commands of one scenario are not "
-                   "combined; writes that bypass open()/os.* (e.g. os.write on a raw fd obtained elsewhere) would be atomic "
+                   "combined, except that one kill in three is followed by a second interrupted attempt of the same create; writes that bypass open()/os.* (e.g. os.write on a raw fd obtained elsewhere) would be atomic "
                    "in the model. Known finding: the first-generation window (ascmhl folder exists, chain not yet)."),
     "technique": "deterministic simulation: seeded crash-point injection (kill at numbered fs effects) + post-crash oracles",
     "quick": {"runs": 240, "budget_s": 90},
@@ -150,8 +150,33 @@ def execute(sc, ctx):
         ctx.nontrivial = True
         ctx.state(eff[1], kl["mode"], fclass, depth, n_prior, sc["world"]["wbuf"] > 512)
         ctx.note("kill", kl, res.effects[-1][1:])
-        _check_after_kill(sc, ctx, w, wk, kl, eff, pre_files, pre_hist, full_files, effects,
-                          (base_info, full_info), (base_verify, full_verify), full.outcome)
+        second = None
+        if kl.get("then") or (sc["kills"] != "all" and core.h64(sc["kill_seed"], "double", kl["at"], kl["mode"]) % 3 == 0) or (
+                sc["kills"] == "all" and core.h64(sc["kill_seed"], "double", kl["at"], kl["mode"]) % 4 == 0):
+            # the same create is started again and interrupted again, before anything else touches the history
+            second = kl.get("then")
+            if second is None:
+                r2 = core.h64(sc["kill_seed"], "second", kl["at"], kl["mode"])
+                second = {"at": r2 % E, "mode": ["before", "after", "after"][(r2 >> 20) % 3]}
+            wk.advance(core.h64(sc["kill_seed"], "gap", kl["at"]) % 3 * 1_000_000)
+            res2, _ = scen.run_op(wk, sc["target"], kill=second)
+            if res2.outcome[0] == "killed":
+                ctx.fault("second_kill_in_a_row")
+                ctx.probe("two_interrupted_creates_in_a_row")
+                ctx.note("kill2", second, res2.effects[-1][1:])
+                kl = dict(kl, then=second)
+            else:
+                second = "not-reached"
+                if res2.outcome != full.outcome:
+                    ctx.violate({"kind": "next-command-fails", "cmd": "create", "cause": _fail_cause(res2, _new_folder_without_chain(wk, pre_hist)),
+                                 "effect_kind": eff[1], "mode": kl["mode"], "file": fclass},
+                                f"after kill {kl}: repeated create -> {res2.brief()} (expected {full.outcome}); {res2.stderr[-300:]}",
+                                pin={"kills": [kl]})
+                    core.shutil_rmtree(wk.sandbox)
+                    continue
+        if second != "not-reached":
+            _check_after_kill(sc, ctx, w, wk, kl, eff, pre_files, pre_hist, full_files, effects,
+                              (base_info, full_info), (base_verify, full_verify), full.outcome, double=second is not None)
         ctx.absorb_world(wk)
         # probes
         if fclass in ("manifest", "manifest-tmp") and eff[1] == "write":
@@ -172,7 +197,8 @@ def execute(sc, ctx):
     core.shutil_rmtree(wf.sandbox)
 
 
-def _check_after_kill(sc, ctx, w, wk, kl, eff, pre_files, pre_hist, full_files, effects, infos, verifies, full_outcome):
+def _check_after_kill(sc, ctx, w, wk, kl, eff, pre_files, pre_hist, full_files, effects, infos, verifies, full_outcome,
+                      double=False):
     def V(sig, msg):
         ctx.violate(sig, msg, pin={"kills": [kl]})
 
@@ -207,6 +233,14 @@ def _check_after_kill(sc, ctx, w, wk, kl, eff, pre_files, pre_hist, full_files, 
         for name in visible:
             rel = os.path.join(hrel, "ascmhl", name)
             if rel in pre_files:
+                continue
+            if double:
+                # (the names of the second attempt carry a later time than the uninterrupted reference run)
+                err = observe.xsd_validate(os.path.join(wk.base, rel), "manifest")
+                if err:
+                    V({"kind": "partial-generation-visible", **where},
+                      f"{rel} is visible to the loader but is not a complete manifest (kills {kl}): {err}")
+                    return
                 continue
             if rel not in full_files or post_files.get(rel) != full_files[rel]:
                 V({"kind": "partial-generation-visible", **where},
